@@ -124,6 +124,13 @@ class C14(Spec):
     expected_probes = ('dealings', 'dealt_secrets')
 
     def make_case(self, seed, tier):
+        if seed % 4 == 1:
+            # prime, binary and odd-characteristic extension fields (lifted ones too): the coefficients must be
+            # uniform over the whole sharing field, not over a subfield
+            from .families import fldfam
+            rng = random.Random(f'C14f/{seed}')
+            cfg = sample_cfg(rng, tier, m_min=3, t_min=1)
+            return {'family': 'fld', 'cfg': cfg.to_json(), 'prog': fldfam.gen(rng, cfg, tier), 'seed': seed}
         return _int_case('C14', seed, tier, effects=False, t_min=1, m_min=3)
 
     def monitors(self, case):
@@ -150,6 +157,16 @@ class C35(Spec):
         stmts = c['prog']['stmts']
         for _ in range(rng.randint(1, 2)):
             stmts.insert(rng.randint(1, len(stmts)), ['barrier', [], [], {'name': 'x'}])
+        if rng.random() < 0.4:
+            # exceptions raised by MPyC coroutines before their first await and caught by the program must not
+            # disturb the bookkeeping that barrier()/shutdown() rely on
+            S = [st[1][0] for st in stmts if st[0] in ('input', 'const') and st[1]]
+            for _ in range(rng.randint(1, 2)):
+                if S:
+                    pos = rng.randint(1, len(stmts))
+                    defined = [v for v in S if any(v in st[1] for st in stmts[:pos])]
+                    if defined:
+                        stmts.insert(pos, ['caught_raise', [], [rng.choice(defined)], {'how': rng.choice(('indexOf', 'user'))}])
         return c
 
     def monitors(self, case):
